@@ -44,7 +44,8 @@ theorem split_low_byte (c : Nat) : c = (c % 256) ^^^ (c / 256 * 2 ^ 8) := by
   have h256 : (256 : Nat) = 2 ^ 8 := rfl
   rw [Nat.testBit_xor, h256, Nat.testBit_mod_two_pow, Nat.testBit_mul_two_pow, Nat.testBit_div_two_pow]
   by_cases hi : i < 8
-  · simp [hi]; omega
+  · have h8 : ¬ 8 ≤ i := by omega
+    simp [hi, h8]
   · have : 8 ≤ i := by omega
     simp [hi, this, Nat.sub_add_cancel this]
 
@@ -57,8 +58,10 @@ theorem crcStep_eq_bitwise (poly : Nat) (tab : List Nat)
     have : crc % 256 < 2 ^ 8 := by omega
     exact Nat.xor_lt_two_pow this (by omega)
   rw [htab _ hidx, crcTableEntry]
-  conv => rhs; rw [split_low_byte crc]
-  rw [Nat.xor_assoc, Nat.xor_comm (crc / 256 * 2 ^ 8) b, ← Nat.xor_assoc, crcBits_xor, crcBits_shifted]
+  have e : crc ^^^ b = ((crc % 256) ^^^ b) ^^^ (crc / 256 * 2 ^ 8) := by
+    conv => lhs; rw [split_low_byte crc]
+    rw [Nat.xor_assoc, Nat.xor_comm (crc / 256 * 2 ^ 8) b, ← Nat.xor_assoc]
+  conv => rhs; rw [e, crcBits_xor, crcBits_shifted]
 
 /-! ### Adler-32 -/
 
@@ -73,6 +76,10 @@ theorem adlerStep_inv (ab : Nat × Nat) (p : Nat) (hp : p < 256) (h : AdlerInv a
   simp only [AdlerInv, adlerT, adlerMod] at *
   unfold adlerStep
   simp only [adlerT, adlerMod]
-  split <;> (refine ⟨⟨?_, ?_, ?_⟩, ?_, ?_⟩ <;> simp only [] <;> omega)
+  by_cases hc : (ab.2 + (ab.1 + p) % 2 ^ 32) % 2 ^ 32 > (4294967295 - 255) / 2
+  · simp only [hc, ↓reduceIte]
+    refine ⟨⟨?_, ?_, ?_⟩, ?_, ?_⟩ <;> omega
+  · simp only [hc, ↓reduceIte]
+    refine ⟨⟨?_, ?_, ?_⟩, ?_, ?_⟩ <;> omega
 
 end WaVerif.C14
